@@ -75,6 +75,7 @@ func (c20) Required(string) []string {
 		"unsupported_fixed_rejected", "unsupported_planted_rejected",
 		"registry_fixed", "registry_fixed_roundtrip_ToObject", "registry_fixed_roundtrip_ToObjectAlt",
 		"registry_planted_roundtrips_ToObject", "registry_planted_roundtrips_ToObjectAlt", "registry_typed_nil",
+		"deep_ToInterface", "deep_roundtrip_ToObject", "deep_roundtrip_ToObjectAlt", "go_deep_ToObject", "go_deep_ToObjectAlt",
 		"nopanic_cases", "calls_ToObject", "calls_ToObjectAlt", "calls_ToInterface",
 	}
 }
@@ -871,6 +872,95 @@ func (x *c20run) oddRow(u c20lab) {
 
 // ---------------------------------------------------------------- driver
 
+// ---------------------------------------------------------------- (6) deep nestings
+
+var c20deepDepths = []int{1, 2, 3, 8, 15, 16, 17, 30, 31, 32, 33, 34, 35, 40, 63, 64, 65, 100, 127, 128, 129, 200, 255, 256, 257, 1000, 5000}
+
+// c20firstObject reports the path of the first ugo.Object left inside a ToInterface result ("" when there is none).
+func c20firstObject(v any, level int) string {
+	switch t := v.(type) {
+	case ugo.Object:
+		return fmt.Sprintf("level %d: %T", level, t)
+	case []any:
+		for _, e := range t {
+			if p := c20firstObject(e, level+1); p != "" {
+				return p
+			}
+		}
+	case map[string]any:
+		for _, e := range t {
+			if p := c20firstObject(e, level+1); p != "" {
+				return p
+			}
+		}
+	}
+	return ""
+}
+
+// caseDeep: containers nested `depth` levels (shape 0 arrays, 1 maps, 2 alternating, 3 alternating with SyncMap on the uGO side).
+func (x *c20run) caseDeep(depth, shape int) {
+	in := fmt.Sprintf("deep nesting depth=%d shape=%d (every level holds a string, an int and the next level; leaf int64 7)", depth, shape)
+	x.w = c20wit{Kind: "deep", Seed: uint64(depth), TypIdx: shape, Input: in}
+	useMap := func(l int) bool { return shape == 1 || (shape >= 2 && l%2 == 1) }
+	// Go -> uGO -> Go
+	var g any = int64(7)
+	for l := depth; l >= 1; l-- {
+		if useMap(l) {
+			g = map[string]any{"k": g, "n": int64(l), "s": "lvl"}
+		} else {
+			g = []any{"lvl", int64(l), g}
+		}
+	}
+	x.goRoundTrip("go_deep", g, in)
+	// uGO -> Go: nothing unconverted may remain, at any level; and back
+	var o ugo.Object = ugo.Int(7)
+	for l := depth; l >= 1; l-- {
+		switch {
+		case useMap(l) && shape == 3 && l%4 == 1:
+			o = &ugo.SyncMap{Value: ugo.Map{"k": o, "n": ugo.Int(l), "s": ugo.String("lvl")}}
+		case useMap(l):
+			o = ugo.Map{"k": o, "n": ugo.Int(l), "s": ugo.String("lvl")}
+		default:
+			o = ugo.Array{ugo.String("lvl"), ugo.Int(l), o}
+		}
+	}
+	gi, ok := x.toIface(o)
+	if !ok {
+		return
+	}
+	x.c.Count("deep_ToInterface")
+	if p := c20firstObject(gi, 0); p != "" {
+		x.viol("C20|deep|unconverted-object", "ToInterface leaves a uGO object inside its result: "+p, "ToInterface", p, in)
+		return
+	}
+	if shape != 3 {
+		if d := c20goEq(g, gi, false, "$"); d != "" {
+			x.viol("C20|deep|go-image|"+c20class(d), "ToInterface of the nested uGO value is not the corresponding Go value: "+trunc(d, 300), "ToInterface", trunc(d, 300), in)
+			return
+		}
+	}
+	for _, alt := range []bool{false, true} {
+		fn := c20fname(alt)
+		back, err, ok := x.toObj(alt, gi)
+		if !ok {
+			continue
+		}
+		if err != nil || !x.contract(fn, back, err) {
+			x.viol("C20|deep|"+fn+"|error", fn+"(ToInterface(o)) fails for a deeply nested plain value: "+fmt.Sprint(err), fn, fmt.Sprint(err), in)
+			continue
+		}
+		gb, ok := x.toIface(back)
+		if !ok {
+			continue
+		}
+		if d := c20goEq(gi, gb, alt, "$"); d != "" {
+			x.viol("C20|deep|"+fn+"|"+c20class(d), "deeply nested value changed by a round trip: "+trunc(d, 300), fn, trunc(d, 300), in)
+			continue
+		}
+		x.c.Count("deep_roundtrip_" + fn)
+	}
+}
+
 func (m c20) Run(c *core.Ctx) {
 	x := &c20run{c: c}
 	table := c20table()
@@ -899,6 +989,8 @@ func (m c20) Run(c *core.Ctx) {
 			}
 		}
 		switch w.Kind {
+		case "deep":
+			x.caseDeep(int(w.Seed), w.TypIdx)
 		case "ugo":
 			x.caseUgo(w.Seed, nil)
 		case "go":
@@ -981,6 +1073,20 @@ func (m c20) Run(c *core.Ctx) {
 			continue
 		}
 		x.oddRow(u)
+	}
+
+	for _, d := range c20deepDepths {
+		for shape := 0; shape < 4; shape++ {
+			d, shape := d, shape
+			if !mine() {
+				continue
+			}
+			if !c.Begin(func() string { return fmt.Sprintf("deep seed=%d shape=%d", d, shape) }) {
+				continue
+			}
+			x.caseDeep(d, shape)
+			c.Nontrivial(fmt.Sprintf("deep-%d-%d", d, shape))
+		}
 	}
 
 	// ---- seeded random part. Per batch: quick 6250 values (x16 = 100k), thorough 62500 (x32 = 2M).
